@@ -212,7 +212,8 @@ def model_implicit():
 def stmt_kind(s, text):
     if s[0] == "rawstmt":
         w = text.split(None, 1)[0] if text.split() else ""
-        return {"set": "Set", "add": "Add", "unset": "Unset"}.get(w, "FunctionCall")
+        return {"set": "Set", "add": "Add", "unset": "Unset", "error": "Error", "synthetic": "Synthetic", "log": "Log", "call": "Call",
+                "if": "If", "switch": "Switch"}.get(w, "FunctionCall")
     return STMT_KIND.get(s[0])
 
 
@@ -287,6 +288,8 @@ def oracle(prog, it, linemap):
         if matches or " ~ " in prog_line(prog, a["line"]) or " !~ " in prog_line(prog, a["line"]):
             sfx |= set(ml["match"])
         implicit += tuple(EFFECT_CELL[x] for x in sfx if x in EFFECT_CELL)
+        if kind == "Error":
+            implicit += ("@obj.status", "@obj.response", "obj.response")
         for path in unobserved_effects(prog_line(prog, a["line"]), target):
             bad.append(("%s uses a built-in that may write ctx.%s, which the snapshot does not show" % (what, path), a["line"]))
         # locals of the frame: only the assigned one may change, none may vanish
@@ -445,6 +448,11 @@ def run(ctx):
     acc = {"n_err": 0, "n_ok": 0, "n_pairs": 0, "model_runs": 0, "agree": 0, "mstat": {}, "n_loglines": 0,
            "distinct": set(), "watchdog": {"retried": 0, "recovered": 0, "reproduced": 0}, "max_violations": 40}
     samples = []
+    import time as _t
+    t0 = _t.time()
+    matrix, accepted = run_matrix(ctx, impl, acc)
+    matrix["seconds"] = round(_t.time() - t0, 1)
+    wg.accepted = wgf.accepted = sorted(accepted)
     CH = 300
     done_core = done_wild = 0
     while done_core < n_core or done_wild < n_wild:
@@ -487,6 +495,7 @@ def run(ctx):
         "dimension_counts": dict(sorted(dims.items())),
         "budget_shares": {"core programs with shape focus": "1/3", "wild programs with shape + all-types focus": "1/2"},
         "generator_stats": dict(sorted(stats.items())),
+        "operand_matrix": matrix,
         "tables_regenerated_from_source": [
             "Gen/StoreEffects.v: builtin_effects / builtin_ctx_free / builtin_arg_writers (interpreter/function/builtin/*.go), "
             "statement_effects (statement.go), operator_effects / operator_ctx_free (operator/operator.go)",
@@ -595,6 +604,59 @@ def process_chunk(ctx, impl, model, progs, wild, acc, thorough):
         for what in bad[:1]:
             ctx.violation("accessor snapshot and in-language log disagree: " + what, {"scope": p.scope, "vcl": text})
         p._text = base
+
+
+def run_matrix(ctx, impl, acc):
+    """the operand matrix (gen/storegen.py operand_matrix): every value type as a local and as a ctx variable under
+    every expression form, exhaustively; the frame oracle reads every operand after the evaluation.
+    Returns the distribution {type: {form: "checked n / refused m"}} for the evidence."""
+    progs = G.operand_matrix()
+    reqs, maps = impl_requests(progs)
+    for p, (text, _) in zip(progs, maps):
+        p._text = text
+    reps, st = U.robust_batch(impl, reqs, hang_s=60)
+    for k in st:
+        acc["watchdog"][k] += st[k]
+    dist, refused, accepted = {}, {}, set()
+    n_checked = n_bad = 0
+    for p, rep, (text, linemap) in zip(progs, reps, maps):
+        ty, src, fid, shown = p.cell
+        it = parse_impl(rep)
+        cell = dist.setdefault(G.TYN[ty], {}).setdefault(fid, {"local": [0, 0], "ctx": [0, 0]})
+        kind = "local" if src == "local" else "ctx"
+        # the cell counts as exercised only if the form statement itself ran (twice) and the store was read after it
+        form_lines = [ln for ln, info in linemap.items() if info[0] == "stmt" and info[1][0] == "rawstmt" and info[1] is p.main[-2]]
+        nrun = sum(1 for e in it["entries"] if e["line"] in form_lines) if it is not None else 0
+        ran = it is not None and it["status"] != "err" and (nrun >= 2 or (nrun == 1 and it["status"].startswith("state")))
+        if it is None and (rep or "").startswith("initerr"):
+            cell[kind][1] += 1                       # does not parse / is refused before running: not a cell of the language
+            refused.setdefault(G.TYN[ty], set()).add(fid)
+            continue
+        if it is None:
+            ctx.violation("interpreter %s on an operand-matrix program (%s %s as operand of %s)" % ((rep or "no reply")[:120], G.TYN[ty], src, shown),
+                          {"scope": p.scope, "vcl": text, "reply": rep})
+            continue
+        acc["n_pairs"] += len(it["entries"])
+        bad = oracle(p, it, linemap)
+        for what, line in bad[:1]:
+            n_bad += 1
+            ctx.violation("store frame violated by the interpreter (operand matrix: %s %s as operand of `%s`): %s"
+                          % (G.TYN[ty], "local" if src == "local" else "ctx variable " + src[4:], shown, what),
+                          {"scope": p.scope, "vcl": text, "line": line, "operand_type": G.TYN[ty], "operand_source": src, "form": fid})
+        if ran:
+            cell[kind][0] += 1
+            n_checked += 1
+            accepted.add((ty, fid))
+        else:
+            cell[kind][1] += 1
+            refused.setdefault(G.TYN[ty], set()).add(fid)
+    table = {}
+    for tn, forms in sorted(dist.items()):
+        table[tn] = {f: "local %d/%d, ctx %d/%d" % (c["local"][0], sum(c["local"]), c["ctx"][0], sum(c["ctx"])) for f, c in sorted(forms.items())
+                     if c["local"][0] or c["ctx"][0]}
+    return {"programs": len(progs), "cells_evaluated_twice_and_read_after": n_checked, "violations": n_bad,
+            "operand_type_x_expression_form (accepted/run, per source)": table,
+            "forms_refused_by_the_interpreter_for_the_type": {t: sorted(v - {f for f in table.get(t, {})}) for t, v in sorted(refused.items())}}, accepted
 
 
 def run_corpus(ctx, impl):
